@@ -239,9 +239,8 @@ func (f *SexpField) SexpString(ps *PrintState) string {
 			} else {
 				str += val.SexpString(nil) + "    "
 			}
-		} else {
-			panic(err)
 		}
+		// a key that cannot be looked up is left out, as when printing a hash
 	}
 	if len(hash.Map) > 0 {
 		return str[:len(str)-1] + ")"
